@@ -634,6 +634,123 @@ func c02R2(p *Prog, r *Report) {
 		}
 	}
 	r.Check(echoed && extOK, rule, "ss2022.(*StreamServer).HandleStream:stores-authenticated-request-salt", p.posStr(hs.Body.Pos()), "the salt stored for the response is the salt checked into the pool and used to derive the request cipher", "the salt stored for the response is not the salt of the request that was authenticated")
+	// the read cipher is published only once the header that justifies it has been opened and
+	// validated: "has a read cipher" is the connection's only record that the first read happened,
+	// so a cipher stored before the header check leaves a connection whose response was refused
+	// (foreign session, stale timestamp) in the state of an accepted one — the next Read decrypts and
+	// delivers the foreign stream
+	nPub := 0
+	type pubRes struct {
+		owner, pos, bad string
+		anyValidation   bool
+	}
+	pubAt := map[token.Pos]*pubRes{}
+	var pubOrder []token.Pos
+	ownerOf := func(pos token.Pos) string {
+		name := ""
+		p.AllFuncs(p.Pkg("ss2022"), func(t *FuncCtx) {
+			if t.Decl != nil && t.Decl.Pos() <= pos && pos < t.Decl.End() {
+				name = t.Name
+			}
+		})
+		return name
+	}
+	p.AllFuncs(p.Pkg("ss2022"), func(top *FuncCtx) {
+		fc := p.Inlined(top)
+		finfo := fc.Info()
+		var pubs []int
+		var pubExpr []ast.Expr
+		for _, v := range fc.G.V {
+			if v.Node == nil {
+				continue
+			}
+			if as, ok := v.Node.(*ast.AssignStmt); ok && v.Kind == VStmt {
+				for i, l := range as.Lhs {
+					if sel, isSel := ast.Unparen(l).(*ast.SelectorExpr); isSel && sel.Sel.Name == "readCipher" && i < len(as.Rhs) && !isNilExpr(finfo, as.Rhs[i]) {
+						pubs = append(pubs, v.ID)
+						pubExpr = append(pubExpr, as.Rhs[i])
+					}
+				}
+			}
+			inspectNoLit(v.Node, func(n ast.Node) bool {
+				if kv, ok := n.(*ast.KeyValueExpr); ok {
+					if id, isId := kv.Key.(*ast.Ident); isId && id.Name == "readCipher" && !isNilExpr(finfo, kv.Value) {
+						pubs = append(pubs, v.ID)
+						pubExpr = append(pubExpr, kv.Value)
+					}
+				}
+				return true
+			})
+		}
+		if len(pubs) == 0 {
+			return
+		}
+		// validations in the same function: opens with that cipher and header parsers
+		var validations []CallSite
+		for _, cs := range fc.AllCalls() {
+			if cs.Fn == nil {
+				continue
+			}
+			nm := cs.Fn.Name()
+			if strings.HasPrefix(nm, "ParseTCP") || nm == "DecryptInPlace" || nm == "DecryptTo" {
+				validations = append(validations, cs)
+			}
+		}
+		for i, pv := range pubs {
+			bad := ""
+			co := objOf(finfo, pubExpr[i])
+			// some header parse, and some open with the very cipher being published (when the
+			// function has one), must lie on every path to the publication with its success edge
+			// crossed; the two copies that expanding a helper into two branches produces do not
+			// speak about each other
+			okParse, okOpen, hasOpen := false, false, false
+			for _, cs := range validations {
+				isOpen := cs.Fn.Name() == "DecryptInPlace" || cs.Fn.Name() == "DecryptTo"
+				if isOpen {
+					sel, isSel := ast.Unparen(cs.Call.Fun).(*ast.SelectorExpr)
+					if !isSel || co == nil || objOf(finfo, sel.X) != co {
+						continue
+					}
+					hasOpen = true
+				}
+				if fc.G.Dominates([]int{cs.V}, pv) && cs.SuccessGuards(pv) {
+					if isOpen {
+						okOpen = true
+					} else {
+						okParse = true
+					}
+				} else if bad == "" || !isOpen {
+					bad = cs.Fn.Name() + " at " + cs.Pos()
+				}
+			}
+			if okParse && (okOpen || !hasOpen) {
+				bad = ""
+			} else if bad == "" {
+				bad = "a header parse"
+			}
+			key := pubExpr[i].Pos()
+			pr := pubAt[key]
+			if pr == nil {
+				pr = &pubRes{owner: ownerOf(key), pos: p.posStr(fc.G.V[pv].Node.Pos())}
+				pubAt[key] = pr
+				pubOrder = append(pubOrder, key)
+			}
+			if bad != "" {
+				pr.bad = bad + " (in the context of " + fc.Name + ")"
+			}
+			if len(validations) > 0 {
+				pr.anyValidation = true
+			}
+		}
+	})
+	for _, key := range pubOrder {
+		pr := pubAt[key]
+		r.Check(pr.bad == "" && pr.anyValidation, rule, fmt.Sprintf("%s:read-cipher-published-after-validation", pr.owner), pr.pos, "the read cipher is stored only behind the success of every header open / header parse of the function (helpers expanded)",
+			"the connection's read cipher is stored before "+pr.bad+" has succeeded: when that check refuses the header (a response of another session under the same key, a stale timestamp) the error is returned but the connection already counts as initialised, and a further Read opens and delivers the refused stream's chunks")
+	}
+	nPub = len(pubOrder)
+	r.Check(nPub >= 2, rule, "ss2022:read-cipher-publications-found", "", "client and server publications of the read cipher found", fmt.Sprintf("only %d stores of a read cipher found", nPub))
+
 	r.Floor(rule, 9)
 }
 
